@@ -55,7 +55,10 @@ TEXTS = ['\n\nalpha\n  beta\n', '   \n', 'x\n\n\n', '  lead\ntrail  \n\n',
          'cr only\rnext\r', 'mixed\r\nand\nlines', 'nel\x85inside\n',
          'ls inside\n', '﻿bom first\n', 'trailing blank\n\n',
          'é ü 中文 😀\n', '  padded  \n\ttab\n', 'ff\x0cpage\n', '\n',
-         'x' * 300 + '\n']
+         'x' * 300 + '\n',
+         # Latin-1 texts (written as such when the assertion names the
+         # encoding)
+         'caf\xe9 cr\xe8me\n', 'na\xefve \xb1\xbd\nsecond\n', '\xa3 5\n\n']
 FRAMES = [
     {'n': 2, 'cols': [{'name': 'i', 'kind': 'int64', 'cells': [1, 2]}]},
     {'n': 2, 'cols': [{'name': 'f', 'kind': 'float64', 'cells': [1.5, None]},
@@ -592,7 +595,11 @@ def run_case(case, ctx):
         else:
             what, kind, content = s['what'], s['kind'], s['content']
             strip = s.get('strip')
-            latin1 = (n % 3 == 1)
+            # Latin-1 text is, every other time, written as Latin-1 and
+            # the assertion told so
+            latin1 = (what in ('textfile', 'textfiles') and n % 2 == 1
+                      and any(ord(ch) > 127 for ch in content_value(
+                          what, content)))
             fname = '%s%d.%s' % (what, s['file'], EXT[what])
             expect_pass = None
         if locations and kind == 'table':
